@@ -25,7 +25,7 @@ ASSUMPTIONS = ['reference machine = meaning of the statement', 'segments inside 
 def plan(tier):
     if tier == 'thorough':
         return {'cases': 250000, 'chunk': 250, 'budget_s': 1200, 'case_timeout_s': 30, 'minimise_budget_s': 240}
-    return {'cases': 14000, 'chunk': 100, 'budget_s': 80, 'case_timeout_s': 30, 'minimise_budget_s': 90}
+    return {'cases': 45000, 'chunk': 200, 'budget_s': 70, 'case_timeout_s': 30, 'minimise_budget_s': 90}
 
 
 def knob_configs(rng, case, m):
@@ -88,3 +88,7 @@ def minimise(case, violation):
 
 def signature(case, violation):
     return enginesim.signature(case, violation)
+
+
+def adequacy(tier, agg):
+    return B.adequacy(tier, agg, B.REQUIRED_PROBES + ['storage_flat', 'storage_hybrid', 'storage_paged', 'beyond_default_window'])
